@@ -1,4 +1,5 @@
 import Snel.Lemmas.C02
+import Snel.Gen.C02
 /-!
 # C02 — a query returns exactly the matching events, wherever they are stored
 
@@ -151,7 +152,36 @@ theorem C02_zone_u64_negative_fails :
     specEval sch e r = true ∧ (evalMem e r).accepts = true ∧ (evalZone sch e r).accepts = false := by
   decide
 
+/-- `x IN (1, 2.5)`: one float in the list turns the whole list into a set of *strings*; memtable
+values are compared by their text (`"1"` matches), a typed column has no string view. -/
+theorem C02_in_list_float_fails :
+    let sch : Schema := [.int, .int]
+    let e : Expr := .inn 1 [.int 1, .flt ⟨5, 1⟩ "2.5".toList]
+    let r : Row := ⟨"c".toList, [.int 1, .int 1]⟩
+    wellTyped sch e = true ∧ specEval sch e r = true ∧
+    inCond [.int 1, .flt ⟨5, 1⟩ "2.5".toList] = .inStr ["1".toList, "2.5".toList] ∧
+    (evalMem e r).accepts = true ∧ (evalZone sch e r).accepts = false := by decide
+
 /-! ## 3. zone pruning -/
+
+/-- Decision logic stated outright: whenever the planner picks one of the XOR or temporal
+strategies for a `!=` leaf, the selector returns **no zone**, for every schema, catalog, literal,
+segment and pruner behaviour — so the leaf hypothesis of `C02_prune_superset_partial` cannot
+hold for such a leaf on any segment that holds a row different from the literal. -/
+theorem C02_neq_selects_nothing (hasCat : Bool) (k : Option Kind) (cat : Cat) (l : Lit) (raw : RawSeg)
+    (all : List Nat)
+    (hs : choose hasCat k cat .neq = .zxf ∨ choose hasCat k cat .neq = .xf ∨
+          choose hasCat k cat .neq = .temporalRange) :
+    leafSel (choose hasCat k cat .neq) k .neq l raw all = [] := by
+  rcases hs with h | h | h <;> simp [h, leafSel, leafSelU]
+
+/-- … and `!=` is never planned as a full scan once a catalog lists any XOR structure for the
+field (every non-enum, non-temporal field in practice). -/
+theorem C02_neq_strategy (k : Kind) (cat : Cat) (hk : k ≠ .time) (he : ∀ vs, k ≠ .enum vs)
+    (hx : cat.zxf = true ∨ cat.xf = true) :
+    choose true (some k) cat .neq = .zxf ∨ choose true (some k) cat .neq = .xf := by
+  cases k <;> simp_all [choose, Op.isRange] <;> cases hz : cat.zxf <;> simp_all
+
 
 /-- **NOT-free expressions.** If every leaf's zone list on a segment contains `z` whenever a
 row of `z` satisfies that leaf (the contract of the leaf strategies — C08 for the pruners, and
@@ -260,6 +290,33 @@ theorem C02_mixed_uid_hydration_fails :
     let e : Expr := .cmp 2 .lte (.int 3)
     (wUid.candFlagged e).map (fun p => (p.1.id, p.2)) = [(0, false), (0, true)] ∧
     specEval wUid.sch e (row3 1 0 (.int 0)) = true ∧ (wUid.hits e).map Row.key = [2] := by decide
+
+/-! ## 3b. ties to tables generated from the Rust source (`tools/consts/C02.py`) -/
+
+def schemaTypeName : Kind → String
+  | .int => "I64" | .u64 => "U64" | .float => "F64" | .str => "String" | .bool => "Bool"
+  | .time => "Timestamp" | .enum _ => "Enum"
+
+def physName : Cell → String
+  | .i64 _ => "I64" | .u64 _ => "U64" | .f64 _ => "F64" | .bool _ => "Bool" | .bytes _ => "VarBytes"
+
+/-- The model's cell type per schema type is the `FieldType → PhysicalType` match of
+`column_writer.rs` as it reads today (regenerated on every run). -/
+theorem C02_gen_phys_table (k : Kind) (v : Val) :
+    physName (cellOf k v) = ((Snel.Gen.C02.physTable.lookup (schemaTypeName k)).getD "VarBytes") := by
+  cases k <;> simp [cellOf, physName, schemaTypeName, Snel.Gen.C02.physTable, List.lookup]
+
+def strategyName : Strategy → String
+  | .temporalEq => "TemporalEq" | .temporalRange => "TemporalRange" | .enumBitmap => "EnumBitmap"
+  | .surf => "ZoneSuRF" | .zxf => "ZoneXorIndex" | .xf => "XorPresence" | .full => "FullScan"
+
+/-- When the pruner answers `None`, the model's selector returns no zone exactly for the
+strategies whose arm in `field_selector.rs` is `return Vec::new()`, and all zones for those that
+fall back to the metadata enumeration. -/
+theorem C02_gen_fallbacks (st : Strategy) (k : Option Kind) (op : Op) (l : Lit) (all : List Nat) :
+    (strategyName st ∈ Snel.Gen.C02.emptyOnNone → leafSel st k op l (fun _ => none) all = []) ∧
+    (strategyName st ∈ Snel.Gen.C02.allZonesOnNone → leafSel st k op l (fun _ => none) all = all) := by
+  cases st <;> simp [strategyName, Snel.Gen.C02.emptyOnNone, Snel.Gen.C02.allZonesOnNone, leafSel, leafSelU]
 
 /-! ## 4. exactness -/
 
